@@ -805,8 +805,14 @@ func main() {
 			if rhs == "" {
 				rhs = t.model + " " + strings.Join(f.args, " ")
 			}
-			fmt.Fprintf(&ties, "theorem %s_eq %s :\n    %s %s = %s := by\n  go2lean_tie %s %s\n#tie_ok %s_eq \"%s.%s\"\n\n",
-				f.lname, strings.Join(f.params, " "), f.lname, strings.Join(f.args, " "), rhs, f.lname, t.model, f.lname, t.pkg, t.fn)
+			tac := fmt.Sprintf("go2lean_tie %s %s", f.lname, t.model)
+			if len(f.params) == 1 && strings.HasSuffix(f.params[0], ": UInt8)") {
+				// a function of one byte: if unfolding does not show the equality, all 256 inputs
+				// are evaluated by the kernel (a finite table is a proof, not a sample)
+				tac = fmt.Sprintf("go2lean_tie8 %s %s %s", f.lname, t.model, f.args[0])
+			}
+			fmt.Fprintf(&ties, "@[go2lean_ties] theorem %s_eq %s :\n    %s %s = %s := by\n  %s\n#tie_ok %s_eq \"%s.%s\"\n\n",
+				f.lname, strings.Join(f.params, " "), f.lname, strings.Join(f.args, " "), rhs, tac, f.lname, t.pkg, t.fn)
 		}
 		for _, c := range consts { // named constants: tie those the functions use, refuse silently vanished ones
 			if c.pkg != cfg.name {
